@@ -369,7 +369,11 @@ class Flattener:
         for e in iffs:
             node.subs.insert(0, S("if-feature", e, mod=node.mod))
         if when is not None:
-            node.subs.insert(0, S("when", (when[0], when[1], when[2] + 1), mod=node.mod))
+            # RFC 7950 7.21.5: the context node of a when under uses / augment is the data node they are in (the
+            # target); under choice / case it is the closest ancestor data node - the same node, the path is unchanged;
+            # under any other data definition statement it is the node itself - one more step up
+            up = when[2] if node.kw in ("choice", "case") else when[2] + 1
+            node.subs.insert(0, S("when", (when[0], when[1], up), mod=node.mod))
 
     def own_conditions(self, st):
         self.norm_props(st)
@@ -839,12 +843,14 @@ class Gen:
                     vals.append(v)
             for v in vals:
                 ll.add(S("default", v))
-        elif r < 0.6 and allow_mand and not need_dflt:
+        elif r < 0.6 and allow_mand and not need_dflt and (dflt is None or rng.random() < 0.15):
+            # (mostly without a default in the type: listed finding leaflist-min-typedef-default)
             ll.add(S("min-elements", str(rng.choice([1, 2]))))
         elif need_dflt:
             ll.add(S("default", pick_value(rng, eff)))
         if rng.random() < 0.3:
-            ll.add(S("max-elements", str(rng.choice([2, 3, 4]))))
+            # (at least as many as there are default values: otherwise no document without the leaf-list is valid)
+            ll.add(S("max-elements", str(max(rng.choice([2, 3, 4]), len(ll.findall("default")), 1 if dflt is None else 1))))
         if rng.random() < 0.2:
             ll.add(S("if-feature", iff_text(iff_gen(rng), "" if mod == "fa" else "a:")))
         return ll.stamp(mod)
@@ -1010,11 +1016,12 @@ class SetGen(Gen):
             mn, mx = int(t.val("min-elements", "0")), t.val("max-elements")
 
             def minmax():
-                if not t.findall("default") and mod == "fa" and rng.random() < 0.5 and (dflt is None or eff.accepts(dflt)):
+                if not t.findall("default") and mod == "fa" and rng.random() < 0.5 and (dflt is None or rng.random() < 0.15) and \
+                        (dflt is None or eff.accepts(dflt)):
                     rf.add(S("min-elements", str(rng.choice([1, 2]))))
                     rf.add(S("max-elements", str(rng.choice([2, 3, 5]))))
                 else:
-                    rf.add(S("max-elements", str(max(mn, 1) + rng.choice([0, 1, 3]))))
+                    rf.add(S("max-elements", str(max(mn, 1, len(t.findall("default"))) + rng.choice([0, 1, 3]))))
             opts.append(minmax)
             if mn == 0 and eff.builtin != "boolean":
                 def dflts():
@@ -1598,6 +1605,31 @@ def mutations(rng, gen, doc):
 # ------------------------------------------------------------------------------------------------
 # the oracles
 # ------------------------------------------------------------------------------------------------
+def strip_llist_min_defaults(text):
+    """remove the default lines of leaf-list blocks that have min-elements >= 1 (what the listed finding
+    leaflist-min-typedef-default adds to the compiled schema)"""
+    lines = text.split("\n")
+    out = []
+    i = 0
+    while i < len(lines):
+        if re.match(r"\s*leaf-list \S+ \{", lines[i]):
+            depth, j = 0, i
+            while True:
+                depth += lines[j].count("{") - lines[j].count("}")
+                j += 1
+                if depth == 0 or j >= len(lines):
+                    break
+            blk = lines[i:j]
+            if any(re.match(r"\s*min-elements [1-9]", b) for b in blk):
+                blk = [b for b in blk if not re.match(r'\s*default "', b)]
+            out += blk
+            i = j
+        else:
+            out.append(lines[i])
+            i += 1
+    return "\n".join(out)
+
+
 def make_sets(rng):
     """-> structured statements, flattened statements (RFC), alternative flattenings that emulate listed findings
     {tag: statements} (only those whose text differs from the RFC one), Python model"""
@@ -1611,9 +1643,7 @@ def make_sets(rng):
         return {"fa": fl.flatten_module("fa", devs), "fb": fl.flatten_module("fb"), "fd": fd_plain}
     f0 = flat()
     alts = {}
-    for tag, kw in (("refine-nested-inner-wins", {"inner_refine_wins": True}),
-                    ("leaflist-min-typedef-default", {"llist_min_keeps_default": True}),
-                    ("refine-nested-inner-wins+leaflist-min-typedef-default", {"inner_refine_wins": True, "llist_min_keeps_default": True})):
+    for tag, kw in (("refine-nested-inner-wins", {"inner_refine_wins": True}),):
         fx = flat(**kw)
         if fx["fa"].text() != f0["fa"].text() or fx["fb"].text() != f0["fb"].text():
             if not any(fx["fa"].text() == a["fa"].text() and fx["fb"].text() == a["fb"].text() for a in alts.values()):
@@ -1692,7 +1722,7 @@ class FlattenEquiv:
         return line
 
     def gen(self, rng, tier, scale=1.0):
-        return [self.build_case(rng) for _ in range(self.n(tier, 14, 500, scale))]
+        return [self.build_case(rng) for _ in range(self.n(tier, 45, 900, scale))]
 
     def judge(self, line, out):
         if crashed(out):
@@ -1723,7 +1753,9 @@ class FlattenEquiv:
             ps = norm_print(unhex(next(x for m, x in S_ if m[0] == "schema").split(" ")[1]).decode())
             pf = norm_print(unhex(next(x for m, x in F_ if m[0] == "schema").split(" ")[1]).decode())
             known = None
-            if ps != pf:
+            if ps != pf and strip_llist_min_defaults(ps) == pf:
+                known = "leaflist-min-typedef-default"
+            elif ps != pf:
                 # is the difference the one a listed finding makes?
                 for (e2, cset), items in by.items():
                     if e2 != ei or cset in ("s", "f"):
@@ -1731,8 +1763,12 @@ class FlattenEquiv:
                     if not all(x == "0" for m, x in items if m[0] == "load"):
                         continue
                     m2, x2 = next((m, x) for m, x in items if m[0] == "schema")
-                    if norm_print(unhex(x2.split(" ")[1]).decode()) == ps:
+                    pa = norm_print(unhex(x2.split(" ")[1]).decode())
+                    if pa == ps:
                         known = m2[3]
+                        break
+                    if pa == strip_llist_min_defaults(ps):
+                        known = m2[3] + "+leaflist-min-typedef-default"
                         break
                 if known is None:
                     import difflib
@@ -1767,4 +1803,96 @@ class FlattenEquiv:
                         "finding predicts" % ei)
         if not judged:
             self.skipped += 1
+        return None
+
+
+class LoadOrder(FlattenEquiv):
+    """C11 (search): the compiled schema does not depend on the order in which the modules of the structured set were
+    loaded (every order of fa, fb, fd; fc before or after), on whether the main module was implemented at once or later
+    (imported by fc first, then lys_set_implemented), on parsing from text instead of loading by name, nor on
+    LY_CTX_EXPLICIT_COMPILE + ly_ctx_compile: compiled prints of all four modules and the schema node set of fa."""
+    name = "load-order"
+
+    def build_case(self, rng):
+        mods, f0, alts, model = make_sets(rng)
+        env = {f: rng.random() < 0.6 for f in FEATS}
+        fa = feats_arg(env)
+        cmds, meta = [], []
+
+        def add(cmd, *m):
+            cmds.append(cmd)
+            meta.append(m)
+        for k, v in mods.items():
+            add("def s/%s %s" % (k, hexs(v.text())), "def")
+
+        def observe(c, vi):
+            for mname in ("fa", "fb", "fc", "fd"):
+                add("schema %s %s" % (c, mname), "schema", vi, mname)
+            add("snodes %s fa" % c, "snodes", vi)
+        variants = []
+        for perm in itertools.permutations(["fa", "fb", "fd"]):
+            pos = rng.randrange(4)
+            order = list(perm)
+            order.insert(pos, "fc")
+            variants.append(("load " + " ".join(order), [("load", m) for m in order], 0))
+        variants.append(("fc first, then lys_set_implemented(fa)", [("load", "fc"), ("setimpl", "fa"), ("load", "fb"), ("load", "fd")], 0))
+        variants.append(("fb first (fa implemented as augment target), then features by lys_set_implemented",
+                         [("load", "fb"), ("setimpl", "fa"), ("load", "fd"), ("load", "fc")], 0))
+        variants.append(("explicit compile", [("load", "fa"), ("load", "fb"), ("load", "fc"), ("load", "fd"), ("compile", None)], 0x80))
+        order = ["fa", "fb", "fc", "fd"]
+        rng.shuffle(order)
+        variants.append(("explicit compile, " + " ".join(order), [("load", m) for m in order] + [("compile", None)], 0x80))
+        variants.append(("parsed from text", [("modtxt", "fa"), ("modtxt", "fb"), ("modtxt", "fd"), ("modtxt", "fc")], 0))
+        for vi, (what, steps, opts) in enumerate(variants):
+            c = "c%d" % (vi % 8)
+            add("ctx %s %d s" % (c, opts), "ctx", vi, what)
+            for op, m in steps:
+                if op == "compile":
+                    add("compile %s" % c, "step", vi)
+                else:
+                    add("%s %s %s %s" % (op, c, m, fa if m == "fa" else "-"), "step", vi)
+            observe(c, vi)
+        line = "flat\t" + "\t".join(cmds)
+        self.cases[line] = meta
+        return line
+
+    def gen(self, rng, tier, scale=1.0):
+        return [self.build_case(rng) for _ in range(self.n(tier, 30, 600, scale))]
+
+    def judge(self, line, out):
+        if crashed(out):
+            return (None, "crash: " + out)
+        meta = self.cases.get(line)
+        if meta is None:
+            return None
+        r = out.split(" | ")
+        if len(r) != len(meta):
+            return (None, "protocol: %d results for %d commands" % (len(r), len(meta)))
+        var = {}
+        for m, x in zip(meta, r):
+            if m[0] == "def":
+                continue
+            v = var.setdefault(m[1], {"what": "", "steps": [], "obs": []})
+            if m[0] == "ctx":
+                v["what"] = m[2]
+            elif m[0] == "step":
+                v["steps"].append(x)
+            else:
+                v["obs"].append((m, x))
+        base = var[0]
+        if not all(s.split("/")[0] == "0" for s in base["steps"]):
+            self.skipped += 1
+            return None
+        for vi in sorted(var):
+            v = var[vi]
+            if not all(s.split("/")[0] == "0" for s in v["steps"]):
+                return (None, "%s: a step fails (%s) although the first order loads" % (v["what"], v["steps"]))
+            for (m, x), (_, x0) in zip(v["obs"], base["obs"]):
+                if x != x0:
+                    what = "compiled print of " + m[2] if m[0] == "schema" else "schema nodes of fa"
+                    a = unhex(x0.split(" ")[1]).decode() if m[0] == "schema" and " " in x0 else x0
+                    b = unhex(x.split(" ")[1]).decode() if m[0] == "schema" and " " in x else x
+                    import difflib
+                    d = "".join(list(difflib.unified_diff(a.splitlines(1), b.splitlines(1), base["what"], v["what"], n=2))[:40])
+                    return (None, "%s: %s differs from the first order:\n%s" % (v["what"], what, d[:1500]))
         return None
